@@ -63,7 +63,75 @@ func domainAtom(a *an.Atom, global string, pos bool) bool {
 	return domainAtomS(a, nil, global, pos)
 }
 
+// domainPrefixOf: v is the 4-byte domain type of a request taken by array conversion ([4]byte(req.Domain), possibly through a
+// small helper); returns the request object.
+func domainPrefixOf(v ssa.Value, sub Subst, depth int) (ssa.Value, bool) {
+	v = sub.Res(v)
+	if depth > 3 {
+		return nil, false
+	}
+	switch x := v.(type) {
+	case *ssa.UnOp:
+		if sp, ok := x.X.(*ssa.SliceToArrayPointer); ok {
+			if at, ok := sp.Type().(*types.Pointer).Elem().Underlying().(*types.Array); ok && at.Len() == 4 {
+				owner, fld, base := an.FieldOf(sub.Res(sp.X))
+				if owner != nil && fld == "Domain" {
+					return base, true
+				}
+			}
+		}
+	case *ssa.Call:
+		f := x.Call.StaticCallee()
+		if f == nil || !prog.InModule(f) || f.Blocks == nil || f.Signature.Results().Len() != 1 {
+			return nil, false
+		}
+		ns := Subst{}
+		for k, v2 := range sub {
+			ns[k] = v2
+		}
+		for i, p := range f.Params {
+			if i < len(x.Call.Args) {
+				ns[p] = sub.Res(x.Call.Args[i])
+			}
+		}
+		var base ssa.Value
+		for _, ret := range an.Returns(f) {
+			b, ok := domainPrefixOf(an.Result(ret, 0), ns, depth+1)
+			if !ok {
+				return nil, false
+			}
+			base = b
+		}
+		return base, base != nil
+	}
+	return nil, false
+}
+
+// domainArrayTest recognises [4]byte(req.Domain) ==/!= e2types.<Global> (array comparison).
+func domainArrayTest(a *an.Atom, sub Subst) (req ssa.Value, global string, eq bool, ok bool) {
+	if a == nil || (a.Op != "==" && a.Op != "!=") {
+		return nil, "", false, false
+	}
+	for _, side := range [][2]ssa.Value{{a.LV, a.RV}, {a.RV, a.LV}} {
+		u, isU := sub.Res(side[1]).(*ssa.UnOp)
+		if !isU {
+			continue
+		}
+		g, isG := u.X.(*ssa.Global)
+		if !isG || g.Pkg == nil || g.Pkg.Pkg.Path() != pkgE2Types {
+			continue
+		}
+		if base, ok := domainPrefixOf(side[0], sub, 0); ok {
+			return base, g.Name(), a.Op == "==", true
+		}
+	}
+	return nil, "", false, false
+}
+
 func domainAtomS(a *an.Atom, sub Subst, global string, pos bool) bool {
+	if _, g, eq, ok := domainArrayTest(a, sub); ok {
+		return g == global && eq == pos
+	}
 	if a == nil || (a.Op != "true" && a.Op != "false") {
 		return false
 	}
@@ -177,6 +245,9 @@ func (c *Ctx) DomainRules(prop string) {
 							return false
 						}
 						base, _, _ := domainTestS(a.LV, sub)
+						if b2, _, _, ok := domainArrayTest(a, sub); ok {
+							base = b2
+						}
 						return base == reqArg || sameValue(base, reqArg)
 					})}); y == nil {
 					x = nil
